@@ -126,9 +126,20 @@ class C06(Monitor):
                 else:
                     p = f.promised
                     if not p or p % 2 or p <= s.snap['hi_peer']:
-                        # a promised id that is not new: connection error, or (the id belongs to a stream that was
-                        # reset) the stream error any frame on a reset stream gets
-                        v = rules.either(('conn', P), ('stream', P), ('stream', C.STREAM_CLOSED), ('conn', C.STREAM_CLOSED))
+                        # a promised id that is not new (RFC 7540 5.1.1, property C09): a stream error if that stream
+                        # was reset, a STREAM_CLOSED connection error if it ended normally, else PROTOCOL_ERROR
+                        pp = (s.pre_promised or [None])[0]
+                        if conformant(wire, 'request') is not None or (pp is not None and pp.state == 'closed' and
+                                                                       rules.maybe_forgotten(trk, pp, self.knob)):
+                            v = rules.either(('conn', P), ('stream', P), ('stream', C.STREAM_CLOSED), ('conn', C.STREAM_CLOSED))
+                        elif not p or p % 2:
+                            v = ('conn', P)         # not an id a server can promise at all
+                        elif pp is not None and pp.state == 'closed' and pp.closed_by in ('rst_sent', 'rst_recv'):
+                            v = ('stream', C.STREAM_CLOSED)
+                        elif pp is not None and pp.state == 'closed':
+                            v = ('conn', C.STREAM_CLOSED)
+                        else:
+                            v = ('conn', P)
                     elif conformant(wire, 'request') is not None:
                         return
         if f.type == C.WINDOW_UPDATE and pre is not None and pre.state != 'closed' and pre.send_win + f.increment > MAXID:
